@@ -55,6 +55,27 @@ def impl_search(ctx: Ctx, n: int):
             if abs(b - c * h * a) > 1e-9 * max(1.0, abs(b)):
                 found.append({"what": "get_damage is not linear in damage%/hit", "tag": tag, "damage": dm, "hit": hit,
                               "c": c, "h": h, "stat": s.model_dump(), "base": a, "scaled": b})
+        # the damage of a log is a function of the log: a calculator that has already evaluated other logs (buffs differing in ONE
+        # field, every field in turn) must give what a fresh calculator gives, and a dominating buff must not deal less
+        if _ % 10 == 0:
+            base_buff = corecases.rnd_stat(rng, "nonneg").model_copy(update={"ignored_defence": rng.uniform(60, 95)})
+            for tag in ("global.damage", "global.dot"):
+                for f in base.Stat.model_fields:
+                    bump = 5.0 if f == "ignored_defence" else rng.choice([1.0, 20.0, 50.0])
+                    hi = base_buff.model_copy(update={f: getattr(base_buff, f) + bump})
+                    seq = [hi, base_buff, hi] if rng.random() < 0.5 else [base_buff, hi, base_buff]
+                    vals = [calc.get_damage(DamageLog(name="x", damage=300.0, hit=3.0, buff=b, tag=tag)) for b in seq]
+                    fresh = []
+                    for b in seq:
+                        c2 = dpm.DamageCalculator(character_spec=s, damage_logic=lg, armor=armor, level_advantage=calc.level_advantage,
+                                                  force_advantage=calc.force_advantage)
+                        fresh.append(c2.get_damage(DamageLog(name="x", damage=300.0, hit=3.0, buff=b, tag=tag)))
+                    tried += 1
+                    if any(abs(a - b) > tol * max(1.0, abs(b)) for a, b in zip(vals, fresh)):
+                        found.append({"what": "DamageCalculator.get_damage depends on the logs evaluated before (a reused calculator differs "
+                                              "from a fresh one)", "field": f, "tag": tag, "stat": s.model_dump(), "armor": armor,
+                                      "buffs": [b.model_dump() for b in seq], "reused": vals, "fresh": fresh})
+                        break
         if len(found) > 10:
             break
     # ---- cooldown
